@@ -17,6 +17,7 @@ import RotoV.Lemmas.LayoutDrop
 import RotoV.Lemmas.LayoutRead
 import RotoV.Lemmas.LayoutWrite
 import RotoV.Lemmas.LayoutListEq
+import RotoV.Lemmas.ValueCtor
 
 namespace RotoV.C02
 open RotoV RotoV.Layout RotoV.LayoutStd RotoV.Gen.LayoutGen RotoV.Gen.LayoutListEq
@@ -642,5 +643,88 @@ theorem zero_sized_aggregate_of_registered_has_no_storage :
     isReferenceType z = some true ∧ lowerType z = .ok (some .pointer) ∧
     cloneOps r0 = .ok [.clone 0] ∧ dropOps r0 = .ok [.drop 0] :=
   ⟨rfl, rfl, rfl, rfl, rfl, rfl, rfl, rfl, rfl, rfl⟩
+
+/-! ### T8 — constructors: components are evaluated left to right and HOLD their values
+
+The behavioural half of the property ("storing … yields an independent copy, so a later write
+through one name is never visible through another"; "constructor arguments … read exactly the
+component the source names") inside a constructor whose LATER component writes to what an
+EARLIER component read: `W { first: n, second: { n = 9; 1 } }`.  The lowerer's values are lazy
+(`path_value` returns `Value::Clone(place)` and emits nothing: the read happens when the value
+is assigned), so the question is decided by WHEN each component is stored.
+`Model/ValueCtor`: the source core, its value-semantics `eval`, and `lower`, the statement by
+statement transliteration of `Lowerer::record` / `binop` / `assign` / `block` / `block_expr` /
+`function_like` (src/mir/lower.rs) over MIR instructions with their executed meaning. -/
+
+open RotoV.ValueCtor in
+/-- **T8 `constructor_lowering_holds_values`** — for EVERY expression of the source core
+    (literals, reads of variables / field paths / nested paths / whole records, constructors of
+    any number of components nested to any depth, `+`, blocks that assign to a variable or to a
+    field path of one before yielding a value — in every position) and EVERY store: the MIR the
+    lowerer emits for a function body `{ e }`, executed, returns exactly the value the
+    value-semantics spec gives and leaves exactly the spec's store.  In particular every
+    component of every constructor holds the value its expression had when it was evaluated,
+    left to right, whatever the components after it write.
+    (Model level: `lower` is a hand transliteration; the real lowerer's MIR for generated
+    programs of this core is run against `eval` on every check run — `c02 ctor`.) -/
+theorem constructor_lowering_holds_values (e : CE) (σ : Store) : runBody true e σ = eval e σ :=
+  runBody_eq_eval e σ
+
+open RotoV.ValueCtor in
+example : runBody true (.ctor (.cons (.read 0 [1]) (.cons (.blk 0 [1] (.lit (.int 9)) (.read 0 [])) .nil)))
+    [.cons (.int 1) (.cons (.int 2) .nil)] =
+    (.cons (.int 2) (.cons (.cons (.int 1) (.cons (.int 9) .nil)) .nil), [.cons (.int 1) (.cons (.int 9) .nil)]) := by
+  decide
+
+open RotoV.ValueCtor in
+/-- the components of the spec, one at a time: the value of component `k` and the store it
+    leaves behind -/
+def componentAt : CEs → Nat → Store → Option (ValueCtor.V × Store)
+  | .nil, _, _ => none
+  | .cons c _, 0, σ => some (eval c σ)
+  | .cons c cs, k + 1, σ => componentAt cs k (eval c σ).2
+
+open RotoV.ValueCtor in
+/-- **`components_left_to_right`** — what the spec says about a constructor, spelled out:
+    component `k` of the value is the value of the `k`-th expression in the store the
+    components BEFORE it left behind; nothing a component AFTER it does enters it. -/
+theorem components_left_to_right : ∀ (cs : CEs) (k : Nat) (σ : Store) (r : ValueCtor.V × Store),
+    componentAt cs k σ = some r → (eval (.ctor cs) σ).1.get k = r.1
+  | .nil, _, _, _, h => by simp [componentAt] at h
+  | .cons c cs, 0, σ, r, h => by
+    simp only [componentAt, Option.some.injEq] at h
+    subst h
+    simp [eval, evals, ValueCtor.V.get]
+  | .cons c cs, k + 1, σ, r, h => by
+    simp only [componentAt] at h
+    have ih := components_left_to_right cs k (eval c σ).2 r h
+    simpa [eval, evals, ValueCtor.V.get] using ih
+
+open RotoV.ValueCtor in
+/-- **`earlier_component_unaffected_by_later_write`** — the class of seeded change C02-7 as a
+    statement about the compiled code: a constructor whose first component reads `x.p`
+    holds, in the MIR the lowerer emits, the value `x.p` had BEFORE the constructor — for every
+    list of later components, blocks that assign to `x` or to any component of it included. -/
+theorem earlier_component_unaffected_by_later_write (x : Nat) (p : List Nat) (cs : CEs) (σ : Store) :
+    (runBody true (.ctor (.cons (.read x p) cs)) σ).1.get 0 = (σ.read x).proj p := by
+  rw [constructor_lowering_holds_values]
+  exact components_left_to_right (.cons (.read x p) cs) 0 σ _ rfl
+
+open RotoV.ValueCtor in
+example : ∃ cs σ x p, (eval (.ctor (.cons (.read x p) cs)) σ).2.read x ≠ σ.read x ∧
+    (runBody true (.ctor (.cons (.read x p) cs)) σ).1.get 0 = (σ.read x).proj p :=
+  ⟨.cons (.blk 0 [] (.lit (.int 9)) (.lit (.int 1))) .nil, [.int 3], 0, [], by decide, by decide⟩
+
+open RotoV.ValueCtor in
+/-- **`unmaterialised_component_refuted`** — the other answer to the one decision
+    (`lower false`: a component that is a plain read of a variable or a constant is not stored
+    in a variable of its own; the lazy value is written into the record after all components
+    were lowered — seeded change C02-7) does NOT compute the spec:
+    `W { first: n, second: { n = 9; 1 } }` with `n = 3` yields `first = 9`. -/
+theorem unmaterialised_component_refuted :
+    ∃ (e : CE) (σ : Store), runBody false e σ ≠ eval e σ ∧
+      (runBody false e σ).1.get 0 = .int 9 ∧ (eval e σ).1.get 0 = .int 3 :=
+  ⟨.ctor (.cons (.read 0 []) (.cons (.blk 0 [] (.lit (.int 9)) (.lit (.int 1))) .nil)), [.int 3],
+    by decide, by decide, by decide⟩
 
 end RotoV.C02
